@@ -52,7 +52,9 @@ def main():
     path = nsgenv.write_config(cfg)
     try:
         first = play(cfg, seed, episodes, nsteps, defender, path)
-        second = play(cfg, seed, episodes, nsteps, defender, path)
+        # ... and its agents connect from OTHER peer addresses, whose order is the reverse of the order of joining: which agent is
+        # which is decided by the messages, never by the numbers of the addresses the connections happen to come from
+        second = play(cfg, seed, episodes, nsteps, defender, path, peers=[("10.9.0.9", 40009), ("10.5.0.3", 30003), ("10.1.0.1", 20001), ("10.0.0.2", 1002)])
     finally:
         os.unlink(path)
     first["second_run_equal"] = (second["transcript"] == first["transcript"] and second["hash"] == first["hash"] and
@@ -67,13 +69,17 @@ def main():
     shutil.rmtree(wd, ignore_errors=True)
 
 
-def play(cfg, seed, episodes, nsteps, defender, path):
+def play(cfg, seed, episodes, nsteps, defender, path, peers=None):
     d = nsgenv.start(cfg, seed=seed, path=path)
     g = d.g
     transcript = []
     # three attackers (each with a 'random' start host) and one defender; addresses are fixed
     attackers = [("10.5.0.1", 1), ("10.5.0.3", 3), ("10.5.0.4", 4)]
     b = ("10.5.0.2", 2)
+    label = {attackers[0]: 1, attackers[1]: 3, attackers[2]: 4, b: 2}
+    if peers:
+        attackers, b = [tuple(x) for x in peers[:3]], tuple(peers[3])
+        label = {attackers[0]: 1, attackers[1]: 3, attackers[2]: 4, b: 2}
     a = attackers[0]
     everyone = attackers + [b]
 
@@ -86,7 +92,7 @@ def play(cfg, seed, episodes, nsteps, defender, path):
             for raw in d.new_output(addr):
                 doc = json.loads(raw[:-3].decode())
                 doc.pop("to_agent", None)
-                transcript.append([addr[1], canon(doc)])
+                transcript.append([label[addr], canon(doc)])
 
     for addr in everyone:
         d.connect(addr)
